@@ -186,6 +186,9 @@ fn gen_tx(rng: &mut Rng, out: &mut Vec<String>) {
                     let cap = bs - 24;
                     let t = *rng.pick(&[cap + 1, 2 * cap + 1]);
                     c11::read_request_padded(rng, 1, Some(t))
+                } else if rng.chance(1, 3) {
+                    let nonce = *rng.pick(&[0usize, 0, 32, 8200]);
+                    c11::channel_message(*rng.pick(&["opn-req", "clo-req"]), nonce)
                 } else {
                     let k = rng.below(4) as usize;
                     c11::read_request(rng, k)
@@ -217,6 +220,9 @@ fn gen_mw(rng: &mut Rng, out: &mut Vec<String>) {
                 let m = if rng.chance(1, 8) {
                     let t = *rng.pick(&[1100usize, 1124, 1125, 9219, 9220, 9221, 20000]);
                     c11::read_request_padded(rng, 1, Some(t))
+                } else if rng.chance(1, 3) {
+                    let nonce = *rng.pick(&[0usize, 0, 32, 900, 1100]);
+                    c11::channel_message(*rng.pick(&["opn-resp", "clo-resp"]), nonce)
                 } else {
                     let k = rng.below(4) as usize;
                     c11::read_request(rng, k)
@@ -329,6 +335,29 @@ fn gen_systematic(out: &mut Vec<String>) {
             out.push("cchunk 1:5:1002 F".to_string());
         }
     }
+    // sender: sequence numbers across MSG / OPN / CLO messages (one and two chunks), also near the u32 boundary
+    for ctr in [None, Some(4294967292u64)] {
+        out.push("reset tx 8196 0 0 3 9 1".to_string());
+        if let Some(c) = ctr {
+            out.push(format!("setctr 1000 {}", c));
+        }
+        for (kind, nonce) in [("opn-req", 0usize), ("msg", 0), ("opn-req", 8200), ("clo-req", 0), ("msg", 0)] {
+            let m = if kind == "msg" { c11::read_request(&mut Rng::new(3), 1) } else { c11::channel_message(kind, nonce) };
+            let (nid, bytes) = c11::message_bytes(&m);
+            out.push(format!("write {} {} x{}", 40 + nonce % 7, nid, hex(&bytes)));
+            out.push("nextid".to_string());
+            out.push("pump [100000,100000,100000]".to_string());
+        }
+    }
+    for kind in ["opn-resp", "clo-resp"] {
+        out.push("reset mw 8196 0 0 3 9 0".to_string());
+        for nonce in [0usize, 32, 9000] {
+            let m = c11::channel_message(kind, nonce);
+            let (nid, bytes) = c11::message_bytes(&m);
+            out.push(format!("mwrite 9 {} x{}", nid, hex(&bytes)));
+            out.push("mtake".to_string());
+        }
+    }
     // MessageWriter: body around max_message_size, chunk around the scratch buffer (buffer + 1024), growing buffer
     let mut rng = Rng::new(11);
     for (bs, mm, total) in [
@@ -419,11 +448,14 @@ fn chunk_headers(stream: &[u8]) -> Option<Vec<(u32, u32)>> {
             return None;
         }
         let size = u32::from_le_bytes(stream[p + 4..p + 8].try_into().unwrap()) as usize;
-        if size < 24 || p + size > stream.len() {
+        // the sequence header follows the security header: asymmetric (policy None: 59 bytes) in an OPN chunk,
+        // the 4-byte token id otherwise
+        let off = if &stream[p..p + 3] == b"OPN" { 12 + 59 } else { 12 + 4 };
+        if size < off + 8 || p + size > stream.len() {
             return None;
         }
-        let seq = u32::from_le_bytes(stream[p + 16..p + 20].try_into().unwrap());
-        let req = u32::from_le_bytes(stream[p + 20..p + 24].try_into().unwrap());
+        let seq = u32::from_le_bytes(stream[p + off..p + off + 4].try_into().unwrap());
+        let req = u32::from_le_bytes(stream[p + off + 4..p + off + 8].try_into().unwrap());
         out.push((seq, req));
         p += size;
     }
